@@ -178,6 +178,9 @@ type sessWorld struct {
 	anom     []string
 	t0       int64
 	boxerOK  bool
+	// after a block aimed at a boundary of a session, the next block mostly carries a tx of the same session
+	follow    *sess
+	probeNext bool // the next session tx is a budget-sized spend
 }
 
 func (w *sessWorld) unix() int64 { return w.now.Unix() }
@@ -479,19 +482,29 @@ func (w *sessWorld) genMsgs(t *stx, master string, fit *sess) {
 			body := "package main\n\nimport \"gno.land/r/sim/box\"\n\nfunc main(cur realm) { box.Incr(cross(cur)) }\n"
 			m := vm.NewMsgRun(w.acts[master].addr, nil, []*std.MemFile{{Name: "main.gno", Body: body}})
 			add(m, msgInfo{route: "vm", typ: "run", desc: "run{box.Incr}", calls: true, session: true})
-		case 7: // a send that fits the remaining budget exactly, or misses it by one
+		case 7: // coins sized to the budget: exactly what is left, one more, or what a fresh period would allow
 			amt := w.amount()
+			asSend := true
 			if fit != nil && fit.live {
 				used := fit.usedLo
 				if fit.period > 0 && w.unix() >= fit.reset+fit.period {
 					used = 0
 				}
-				if rem := fit.limit - used - t.fee; rem > 0 {
-					amt = rem + int64(c.Intn(2))
-					w.r.Probe("sends_sized_to_the_remaining_budget")
+				switch v := c.Intn(4); {
+				case v >= 2 && fit.limit-t.fee > 0:
+					amt = fit.limit - t.fee // fits only if nothing was spent in the current period
+					w.r.Probe("spends_sized_to_a_fresh_period")
+				case fit.limit-used-t.fee > 0:
+					amt = fit.limit - used - t.fee + int64(v)
+					w.r.Probe("spends_sized_to_the_remaining_budget")
 				}
+				asSend = allowMatches(fit.allow, msgInfo{route: "bank", typ: "send"})
 			}
-			add(w.sendMsg(master, amt))
+			if asSend {
+				add(w.sendMsg(master, amt))
+			} else {
+				add(w.callMsg(master, boxPath, "Incr", nil, amt, 0))
+			}
 		case 8: // fails after the fee: gno panic
 			m, mi := w.callMsg(master, boxPath, "Fail", []string{fmt.Sprint(c.Intn(9))}, 0, 0)
 			mi.mustFail = "deliberate failure"
@@ -531,6 +544,9 @@ func (w *sessWorld) genMsgs(t *stx, master string, fit *sess) {
 	k := c.Weighted(w.txW)
 	if !forSession && k == 11 {
 		k = 0
+	}
+	if forSession && w.probeNext {
+		k = 7
 	}
 	if k == 12 { // multi-message
 		n := 2 + c.Intn(3)
@@ -1181,9 +1197,9 @@ func runSessions(c *kernel.Choices, p kernel.Params) *kernel.Result {
 	if totW == 0 {
 		w.sessions[0].weight = 1
 	}
-	// message-shape weights: send, small call, attached, grow, shrink, other realms, run, multisend,
+	// message-shape weights: send, small call, attached, grow, shrink, other realms, run, budget-sized spend,
 	// fail, oog, deposit cap, denied kinds, multi-message
-	w.txW = []int{2 + c.Intn(5), 1 + c.Intn(4), c.Intn(4), c.Intn(6), c.Intn(3), c.Intn(4), c.Intn(2), c.Intn(2),
+	w.txW = []int{2 + c.Intn(5), 1 + c.Intn(4), c.Intn(4), c.Intn(6), c.Intn(3), c.Intn(4), c.Intn(2), c.Intn(4),
 		c.Intn(4), c.Intn(3), c.Intn(2), c.Intn(3), 1 + c.Intn(4)}
 	// block-shape weights: session txs, create, master txs, revoke one, revoke all, co-signed, foreign session, revoke-then-use
 	blockW := []int{8 + c.Intn(10), 1 + c.Intn(3), c.Intn(4), c.Intn(3), c.Intn(2), c.Intn(3), c.Intn(2), c.Intn(2)}
@@ -1262,7 +1278,22 @@ func runSessions(c *kernel.Choices, p kernel.Params) *kernel.Result {
 			}
 			w.r.Fault("restart")
 		}
-		forced, tag := w.advance(timeW)
+		var forced *sess
+		var tag string
+		if w.follow != nil && c.Chance(2, 3) {
+			w.now = time.Unix(w.unix()+1+int64(c.Intn(2)), 0).UTC()
+			forced, tag = w.find(w.follow.master, w.follow.slot), " [follow-up]"
+			w.follow = nil
+			w.probeNext = c.Bool()
+			w.r.Probe("follow_up_blocks_after_a_boundary")
+		} else {
+			forced, tag = w.advance(timeW)
+			w.follow = nil
+			if forced != nil && tag != "" {
+				w.follow = forced
+				w.probeNext = c.Chance(1, 3)
+			}
+		}
 		shape := c.Weighted(blockW)
 		if forced != nil {
 			shape = 0
@@ -1409,6 +1440,7 @@ func runSessions(c *kernel.Choices, p kernel.Params) *kernel.Result {
 			}
 			txs = append(txs, t, u)
 		}
+		w.probeNext = false
 		if len(txs) == 0 {
 			continue
 		}
